@@ -3,7 +3,7 @@
 cd /verif
 for d in seeded/C*-*; do
   id=$(basename $d); c=${id%%-*}
-  [ -n "$1" ] && case "$id" in $1*) ;; *) continue;; esac
+  if [ -n "$EXACT" ]; then [ "$id" = "$1" ] || continue; else [ -n "$1" ] && case "$id" in $1*) ;; *) continue;; esac; fi
   out=$(tools/try_seed.sh $d $c 2>&1)
   t=$(echo "$out" | sed -n 's/^repo tests with patch: //p')
   dp=$(echo "$out" | sed -n 's/^demo WITH patch (must fail): //p')
